@@ -113,6 +113,9 @@ def merge_cost(a, b):
     out["max_excess"] = max(a["max_excess"], b["max_excess"])
     out["max_n"] = max(a["max_n"], b["max_n"])
     out["max_m"] = max(a["max_m"], b["max_m"])
+    ra = a.get("max_ratio_milli_by_cpu", [0, 0, 0])
+    rb = b.get("max_ratio_milli_by_cpu", [0, 0, 0])
+    out["max_ratio_milli_by_cpu"] = [max(x, y) for x, y in zip(ra, rb)]
     return out
 
 
@@ -134,7 +137,7 @@ class RunResult:
 
 
 def run_workers(exe, prop, seed, total, chunk, want_hashes=False, timeout_per_chunk=600, first=0, sig_cap=300000,
-                wrapper=None, workers=NCPU, env=None):
+                wrapper=None, workers=NCPU, env=None, extra_args=None):
     """Runs families [first, first+total) in chunks over a pool of processes."""
     os.makedirs(SCRATCH, exist_ok=True)
     tag = "%s-%d-%d" % (prop, os.getpid(), int(time.time() * 1000) % 100000)
@@ -158,6 +161,8 @@ def run_workers(exe, prop, seed, total, chunk, want_hashes=False, timeout_per_ch
                    "--sig-cap", str(sig_cap)]
             if want_hashes:
                 cmd.append("--hashes")
+            if extra_args:
+                cmd += list(extra_args)
             if wrapper:
                 cmd = wrapper(cmd)
             p = subprocess.Popen(cmd, stdout=subprocess.DEVNULL, stderr=subprocess.PIPE, env=env or ENV_BASE)
@@ -231,6 +236,8 @@ def run_workers(exe, prop, seed, total, chunk, want_hashes=False, timeout_per_ch
         running[pid][0].kill()
     res.wall = time.time() - t0
     res.out_files = outs
+    if res.violation is not None:
+        res.violation["gen_args"] = list(extra_args or [])
     return res
 
 
@@ -297,7 +304,7 @@ def materialise(exe, prop, seed, viol):
         with open(raw, "w") as f:
             json.dump(viol["replay"], f)
     else:
-        cmd = [exe, "gen", "--prop", prop, "--seed", str(seed), "--index", str(fam)]
+        cmd = [exe, "gen", "--prop", prop, "--seed", str(seed), "--index", str(fam)] + viol.get("gen_args", [])
         if viol["how"] == "trap" and viol.get("choices"):
             cmd += ["--choices", ",".join(str(c) for c in viol["choices"]), "--variant", str(viol.get("variant", 0))]
         r = subprocess.run(cmd, capture_output=True, text=True, env=ENV_BASE)
